@@ -1,0 +1,21 @@
+//go:build verif
+
+// Contracts for the govc verifier (see /verif/DESIGN.md). Comment-only file.
+package minter
+
+//@ # ---------------------------------------------------------------- governance tallies (C20)
+//@ # support of one proposal = sum of the voting powers of its voters that are in validatorsPowers (present validators)
+
+//@ spec haltSupport(list []halts.Item, n int, pw map[types.Pubkey]*big.Int) int = n <= 0 ? 0 : haltSupport(list, n-1, pw) + ((list[n-1].Pubkey in pw) ? pw[list[n-1].Pubkey].val : 0)
+//@ spec voteSupport(votes []types.Pubkey, n int, pw map[types.Pubkey]*big.Int) int = n <= 0 ? 0 : voteSupport(votes, n-1, pw) + ((votes[n-1] in pw) ? pw[votes[n-1]].val : 0)
+
+//@ func (*Blockchain).isApplicationHalted
+//@   serves C20
+//@   let m = haltModel(blockchain.stateDeliver.Halts, height)
+//@   let sup = old(haltSupport(m.List, len(m.List), blockchain.validatorsPowers))
+//@   requires blockchain != nil && blockchain.stateDeliver != nil && blockchain.stateDeliver.Halts != nil
+//@   requires blockchain.totalPower != nil && blockchain.totalPower.val >= 1
+//@   requires forall k types.Pubkey :: k in blockchain.validatorsPowers ==> blockchain.validatorsPowers[k] != nil && blockchain.validatorsPowers[k].val >= 0
+//@   ensures quorum: result <==> ((blockchain.haltHeight > 0 && height >= blockchain.haltHeight) || (m != nil && 3*sup > 2*blockchain.totalPower.val))
+//@   loop 0 invariant bounds: -1 <= rangeindex && rangeindex < len(halts.List) || (rangeindex == -1 && len(halts.List) == 0)
+//@   loop 0 invariant sum: totalVotedPower.val == old(haltSupport(halts.List, rangeindex + 1, blockchain.validatorsPowers))
